@@ -8,9 +8,13 @@ from ..model import norm_stmt
 from .common import facts, parent
 
 EXPLANATION = (
-    "Non-interference of the is_predict flag up to a final projection. (R9.1) each of the six context-free "
-    "predict methods is `argmax o predict_expectations(contexts)` (dict -> argmax, list -> [argmax ...]) and uses "
-    "no generator itself; utils.argmax is the first-maximum idiom max(d, key=d.get). (R9.2) every branch on "
+    "Non-interference of the is_predict flag up to a final projection. (R9.1) the cardinality interpreter "
+    "(rules/cardinality.py) shows for each of the six context-free policies, per scenario no contexts / one row / "
+    "m rows, that predict returns argmax of exactly the dictionary predict_expectations(contexts) returns, resp. "
+    "the list of the argmax of each of its dictionaries in row order, whatever the spelling; predict uses no "
+    "generator itself; utils.argmax is the first-maximum idiom max(d, key=d.get). (R9.3) the dictionary "
+    "TreeBandit maximises per row has exactly the arms as keys in arm-list order (first maximum = arm order on "
+    "ties). (R9.2) every branch on "
     "is_predict in the library is a projection pair from the accept-list {argmax(E) | E.copy()}, {X.predict(a) | "
     "X.predict_expectations(a)} on the same object and argument, {arms[np.argmax(E, axis=1)] | dict(zip(self.arms, "
     "row))} with the columns of E built in arm-list order, or one of the two documented exceptions "
